@@ -337,13 +337,204 @@ def shipped(ctx):
                 reg.data.remove(cls)
 
 
+# ---- the configuration layer against its model (Model/Schema.v, run on the tables regenerated from the live schema objects) ----
+def impl_verdict(tree):
+    """-> ('built', env) | ('schema'|'value'|'constructed'|'other', exception name)"""
+    import traceback
+    from schema import SchemaError
+    try:
+        return ('built', factory_env_from_data(copy.deepcopy(tree)))
+    except SchemaError as e:
+        return ('schema', type(e).__name__)
+    except Exception as e:  # noqa: BLE001
+        post = any(fr.name == 'factory_env_from_data' and fr.line and any(w in fr.line for w in ('reset_function()', 'observation_function(state)', '.build()', 'GridWorld('))
+                   for fr in traceback.extract_tb(e.__traceback__))
+        if post:
+            return ('constructed', type(e).__name__)     # every component was constructed; the first reset / observation failed
+        return ('value' if isinstance(e, ValueError) else 'other', type(e).__name__)
+
+
+def _comp_of(p, fk, intern):
+    """(registry index, bound keys) of a functools.partial made by a component factory, plus the same for the entries of its list parameters"""
+    reg = signatures.REGISTRIES[fk][1]
+    idx = next((i for i, n in enumerate(reg.keys()) if reg[n] is p.func), None)
+    kids = []
+    for key, sub_fk in (('transition_functions', 1), ('reward_functions', 2), ('terminating_functions', 5)):
+        if key in p.keywords:
+            kids += [_comp_of(q, sub_fk, intern) for q in p.keywords[key]]
+    for key, sub_fk in (('reward_function', 2), ('visibility_function', 4)):
+        if key in p.keywords and hasattr(p.keywords[key], 'func'):
+            kids.append(_comp_of(p.keywords[key], sub_fk, intern))
+    return (fk, idx, [intern(k) for k in p.keywords], kids)
+
+
+def _read_comp(R):
+    fk, idx = R.z(), R.z()
+    bound = [R.z() for _ in range(R.z())]
+    kids = [_read_comp(R) for _ in range(R.z())]
+    return (fk, idx, bound, kids)
+
+
+def _bound_kids(c):
+    """the model lists the components built for EVERY reserved key; the code keeps those whose key the function accepts"""
+    return c
+
+
+def mutate_tree(r, tree, strings):
+    """one random edit somewhere in a configuration tree (paths chosen uniformly over all nodes)"""
+    t = copy.deepcopy(tree)
+    paths = []
+
+    def walk(node, path):
+        paths.append(path)
+        if isinstance(node, dict):
+            for k in node:
+                walk(node[k], path + [k])
+        elif isinstance(node, list):
+            for i in range(len(node)):
+                walk(node[i], path + [i])
+    walk(t, [])
+    path = r.choice(paths[1:] or paths)
+    parent = t
+    for k in path[:-1]:
+        parent = parent[k]
+    node = parent[path[-1]]
+    scalars = [None, True, False, 0, 1, -1, 2, 7, 2.5, '', 'x', 'NONE', 'PURPLE', 'Wall', 'Lava', 'MOVE_FORWARD', 'JUMP', 'manhattan', 'chain', 'reduce_sum', 'reach_exit',
+               'no_such_component'] + r.sample(strings, 3)
+    entries = [{'name': 'move_agent'}, {'name': 'reach_exit', 'reward_on': 2.0}, {'name': 'no_such_component'}, {'name': 5}, {}, {'name': 'reduce_any', 'terminating_functions': [{'name': 'reach_exit'}]},
+               {'name': 'reduce_any', 'terminating_functions': []}, {'name': 'getting_closer', 'object_type': 'Exit', 'distance_function': 'manhattan'},
+               {'name': 'getting_closer', 'object_type': 'Lava'}, {'name': 'getting_closer', 'object_type': 'Exit', 'distance_function': 'chebyshev'},
+               {'name': 'from_visibility', 'area': [[-2, 0], [-1, 1]], 'visibility_function': {'name': 'raytracing'}},
+               {'name': 'from_visibility', 'area': [[-2, 0], [-1, 1]], 'visibility_function': {'name': 'no_such_component'}},
+               {'name': 'from_visibility', 'area': [[-2, 0], [-1, 1]], 'visibility_function': 5}, {'name': 'fully_transparent', 'area': [[0, -2], [-1, 1]]}]
+    values = scalars + [[], [1, 2], [3, 0], [2, 2, 2], ['RED'], ['RED', 'RED'], ['Wall', 'Floor'], [r.choice(entries)], [[-1, 0], [0, 0]]] + entries
+    kind = r.random()
+    if isinstance(node, dict) and kind < 0.55:
+        op = r.random()
+        keys = list(node)
+        new_keys = ['shape', 'layout', 'colors', 'object_type', 'reward_function', 'reward_functions', 'transition_functions', 'terminating_functions', 'reset_function',
+                    'transition_function', 'terminating_function', 'reset_functions', 'distance_function', 'visibility_function', 'area', 'name', 'unaccepted_parameter',
+                    'objects', 'action_space', 5, 'x']
+        if op < 0.3 and keys:
+            del node[r.choice(keys)]
+        elif op < 0.75:
+            node[r.choice(new_keys)] = copy.deepcopy(r.choice(values))
+        elif keys:
+            k = r.choice(keys)
+            node[r.choice(new_keys)] = node.pop(k)
+    elif isinstance(node, list) and kind < 0.55:
+        op = r.random()
+        if op < 0.25 and node:
+            del node[r.randrange(len(node))]
+        elif op < 0.5 and node:
+            node.append(copy.deepcopy(r.choice(node)))
+        elif op < 0.8:
+            node.insert(r.randrange(len(node) + 1), copy.deepcopy(r.choice(values)))
+        else:
+            del node[:]
+    else:
+        parent[path[-1]] = copy.deepcopy(r.choice(values))
+    return t, path
+
+
+def config_trees(ctx):
+    from vt import access, schematab
+    r = ctx.rng
+    strings = sorted(schematab.all_strings() | set(signatures.intern_table()))
+    per = 40 if ctx.tier == 'quick' else 400
+    jobs = []
+    for name, data, desc in envs.shipped_envs():
+        jobs.append((name, 'as shipped', data))
+        for what, mutate, expected in corruptions(data):
+            d = copy.deepcopy(data)
+            try:
+                mutate(d)
+            except (KeyError, IndexError):
+                continue
+            jobs.append((name, what, d))
+        for _ in range(per):
+            d, path = mutate_tree(r, data, strings)
+            if r.random() < 0.3:
+                d, path2 = mutate_tree(r, d, strings)
+                path = path + ['+'] + path2
+            jobs.append((name, 'random edit at ' + '/'.join(map(str, path)), d))
+    reqs, metas = [], []
+    for name, what, tree in jobs:
+        intern = schematab.Interner()
+        try:
+            req = [19, 0] + schematab.cfg_wire(tree, intern)
+        except ValueError:
+            continue
+        got = impl_verdict(tree)
+        reqs.append(req)
+        metas.append((name, what, tree, got, intern))
+    answers = ctx.model(reqs)
+    if answers is None:
+        return
+    for (name, what, tree, got, intern), ans in zip(metas, answers):
+        case = {'file': name, 'edit': what, 'implementation': got[0] if got[0] != 'built' else 'built', 'tree': tree if len(repr(tree)) < 4000 else None}
+        if ans[0] == 1:
+            mv = {8: 'schema', 2: 'value'}.get(ans[1], 'outside')
+        elif ans[0] == 0:
+            mv = 'built'
+        else:
+            ctx.disagreement('configuration tree: undecodable answer of the model', case)
+            continue
+        ctx.count('configuration tree (model verdict)', mv)
+        ctx.count('configuration tree (code verdict)', got[0] + ('' if got[0] in ('built', 'schema', 'value') else ':' + str(got[1])))
+        ctx.case(('tree', name, what, repr(tree)), mv != 'built' or what != 'as shipped', None)
+        if mv == 'outside':
+            continue            # custom module names, keys that are not strings, areas that are not integer pairs: outside the modelled domain
+        same = (mv == got[0]) or (mv == 'built' and got[0] == 'constructed')
+        if not same:
+            if got[0] == 'built' and mv in ('schema', 'value'):
+                ctx.violation(f'{name} [{what}]: a configuration the schemas / factories of the pinned code reject ({mv} error) now yields an environment', case)
+            else:
+                ctx.disagreement(f'configuration tree: the code says `{got[0]}{"" if got[0] in ("built", "schema", "value") else " " + str(got[1])}`, the model says `{mv}`', case)
+            continue
+        if got[0] != 'built':
+            continue
+        # what was built is what the tree describes
+        env = got[1]
+        R = wire.Reader(ans[1:])
+        lists = [[R.z() for _ in range(R.z())] for _ in range(5)]
+        comps = [_read_comp(R) for _ in range(5)]
+        st, sc, acts, ot, oc = lists
+        have = ([t.type_index() for t in env.state_space.object_types], sorted(int(c.value) for c in env.state_space.colors), [envs.ACTS.index(a) for a in env.action_space.actions],
+                [t.type_index() for t in env.observation_space.object_types], sorted(int(c.value) for c in env.observation_space.colors))
+        want = (st, sorted(set(sc) | {0}), acts, ot, sorted(set(oc) | {0}))
+        if have != want:
+            ctx.disagreement('configuration tree: the spaces / actions of the built environment are not the described ones', dict(case, built=str(have), described=str(want)))
+            continue
+        try:
+            parts = [access.component(env, w) for w in ('reset',)] + [access.component(env, 'transition'), access.component(env, 'reward'),
+                                                                       access.component(env, 'observation_f'), access.component(env, 'termin')]
+        except access.AccessError:
+            ctx.count('configuration tree', 'components of the built environment not inspected')
+            continue
+        for fk, p, mc in zip((0, 1, 2, 3, 5), parts, comps):
+            ic = _comp_of(p, fk, intern)
+
+            def flat(c, depth):
+                # the code keeps nested components only under keys the function accepts; the model lists all that were built: compare names / bound keys
+                return (c[0], c[1], sorted(c[2])) if depth == 0 else (c[0], c[1], sorted(c[2]), [flat(k, depth - 1) for k in c[3]])
+            a, b = flat(ic, 0), flat(mc, 0)
+            if a != b or (fk in (1, 2) and [flat(k, 0) for k in ic[3]] != [flat(k, 0) for k in mc[3]]):
+                ctx.disagreement('configuration tree: a component of the built environment is not the described one',
+                                 dict(case, registry=signatures.REGISTRIES[fk][0], built=str(ic), described=str(mc)))
+                break
+
+
 def run(ctx):
     ctx.rule = ('(a) 6 registries x every registered name (+ unknown) x random keyword sets incl. missing required, extra and falsy-valued keys; '
                 '(b) 21 shipped files: copies, ids, build, purity, repeatability, three-way trajectories (factory / by hand / model) with mid-episode resets; '
-                '(c) ~45 systematic corruptions per shipped file with expected accept / reject class; non-trivial = every case')
+                '(c) ~45 systematic corruptions per shipped file with expected accept / reject class; (d) the configuration layer against its model: every shipped tree, every '
+                'systematic corruption and random edits of the trees (delete / add / rename keys, replace nodes by scalars, lists, entries; 40 per file, thorough 400): verdict '
+                '(schema error / value error / built) and, when built, spaces, actions and the component tree; non-trivial = every case')
     factories(ctx)
     shipped(ctx)
     corrupted(ctx)
+    config_trees(ctx)
 
 
 if __name__ == '__main__':
